@@ -385,6 +385,11 @@ func checkC12(c *Ctx, w *World) {
 
 // sameHold: no release of the stream mutex can occur between a and b (both in one critical section).
 func sameHold(lf *LockFacts, a, b ssa.Instruction) bool {
+	return sameHoldOf(lf, "gcpClientStream.Mutex", a, b)
+}
+
+// sameHoldOf: b may follow a and no release of lock can lie between them (one critical section).
+func sameHoldOf(lf *LockFacts, lock string, a, b ssa.Instruction) bool {
 	if !mayPrecede(a, b) {
 		return false
 	}
@@ -398,7 +403,7 @@ func sameHold(lf *LockFacts, a, b ssa.Instruction) bool {
 		if _, isDefer := in.(*ssa.Defer); isDefer {
 			return
 		}
-		if op, ok := lf.lockOpOf(cc); ok && op.kind == "Unlock" && op.lock == "gcpClientStream.Mutex" {
+		if op, ok := lf.lockOpOf(cc); ok && (op.kind == "Unlock" || op.kind == "RUnlock") && op.lock == lock {
 			if mayPrecede(a, in) && mayPrecede(in, b) {
 				bad = true
 			}
